@@ -195,24 +195,28 @@ def fresh_index(n, name='i'):
 
 def char_at(ct, r):
     """letter r of a constraint-type string (Python str natively; Seg of letters symbolically)"""
-    from .interp import Seg, RepStr, Family
+    from .interp import Seg, RepStr, Family, FnStr
     if isinstance(ct, str):
         return ct[int(r)]
     if isinstance(ct, RepStr):
         return ct.ch
+    if isinstance(ct, FnStr):
+        return ct.f(r)
     if isinstance(ct, Seg):
         offs = 0
         pieces = []
         for sg in ct.segs:
             if isinstance(sg, Family):
                 raise sym.Unsupported('char_at into a loop-built family')
-            ln = sg.n if isinstance(sg, RepStr) else len(sg)
+            ln = sg.n if isinstance(sg, (RepStr, FnStr)) else len(sg)
             pieces.append((offs, ln, sg))
             offs = add(offs, ln)
         out = None
         for (o, ln, sg) in reversed(pieces):
             if isinstance(sg, RepStr):
                 val = sg.ch
+            elif isinstance(sg, FnStr):
+                val = sg.f(sub(r, o))
             else:
                 # explicit string: pick by position
                 val = None
@@ -224,10 +228,10 @@ def char_at(ct, r):
 
 
 def str_len(ct):
-    from .interp import Seg, RepStr
+    from .interp import Seg, RepStr, FnStr
     if isinstance(ct, str):
         return len(ct)
-    if isinstance(ct, RepStr):
+    if isinstance(ct, (RepStr, FnStr)):
         return ct.n
     if isinstance(ct, Seg):
         return ct.total()
